@@ -10,7 +10,10 @@ EXTENDS Naturals, Integers, Sequences, FiniteSets
 
 CONSTANTS ATmin,          \* ACK_TIMEOUT                       (ticks)
           ATmax,          \* ACK_TIMEOUT * ACK_RANDOM_FACTOR   (ticks)
-          MaxRetransmit   \* MAX_RETRANSMIT
+          MaxRetransmit,  \* MAX_RETRANSMIT
+          Tol             \* tolerance of time comparisons (0 when every instant of the trace is an exact
+                          \* multiple of the time unit; a few units of 2^-20 s for traces whose timers
+                          \* were armed with values that are not, where float rounding shows)
 
 (* An event is a record                                                      *)
 (*   [k, t, r, ty, mid, q, dig, con, cls]                                    *)
@@ -47,8 +50,8 @@ MaxTransmitWait == ATmax * (Pow2(MaxRetransmit + 1) - 1)
 (* Time at which an unresolved exchange that has sent all its copies is     *)
 (* given up (exact once a gap has been observed; an interval otherwise).    *)
 AllSent(x)       == x.n = 1 + MaxRetransmit
-GiveUpEarliest(x) == IF x.n >= 2 THEN x.last + 2 * x.gap ELSE x.first + ATmin
-GiveUpLatest(x)   == IF x.n >= 2 THEN x.last + 2 * x.gap ELSE x.first + ATmax
+GiveUpEarliest(x) == (IF x.n >= 2 THEN x.last + 2 * x.gap ELSE x.first + ATmin) - Tol
+GiveUpLatest(x)   == (IF x.n >= 2 THEN x.last + 2 * x.gap ELSE x.first + ATmax) + Tol
 
 (* x is certainly still awaiting its acknowledgement at time t *)
 DefinitelyOpen(x, t) == x.res = "none" /\ (~AllSent(x) \/ t < GiveUpEarliest(x))
@@ -100,8 +103,8 @@ ObsTxCopy(o, e) ==       \* retransmission of an exchange seen before
       o1  == FlagIf(o,  x.res # "none", "C03_NoCopyAfterAckOrRst")
       o2  == FlagIf(o1, x.n + 1 > 1 + MaxRetransmit, "C03_MaxCopies")
       o3  == FlagIf(o2, e.dig # x.dig \/ e.ty # "CON", "C03_Identical")
-      o4  == FlagIf(o3, x.n = 1 /\ ~(ATmin <= g /\ g <= ATmax), "C03_FirstGap")
-      o5  == FlagIf(o4, x.n >= 2 /\ g # 2 * x.gap, "C03_GapsDouble")
+      o4  == FlagIf(o3, x.n = 1 /\ ~(ATmin - Tol <= g /\ g <= ATmax + Tol), "C03_FirstGap")
+      o5  == FlagIf(o4, x.n >= 2 /\ (g < 2 * x.gap - Tol \/ g > 2 * x.gap + Tol), "C03_GapsDouble")
   IN [o5 EXCEPT !.ex[key] = [x EXCEPT !.n = @ + 1, !.last = e.t, !.gap = g]]
 
 ObsTx(o0, e) ==
@@ -176,7 +179,7 @@ EndBad(o, t) ==
             /\ ~(AllSent(x) /\ x.resAt >= GiveUpEarliest(x) /\ x.resAt <= GiveUpLatest(x))
      \/ c = "C03_WaitBound" /\ \E k \in DOMAIN o.ex :
             LET x == o.ex[k] IN x.res = "fail" /\ o.rq[x.q].cls = "timeout"
-                                /\ x.resAt > x.first + MaxTransmitWait
+                                /\ x.resAt > x.first + MaxTransmitWait + Tol
      \/ c = "C03_RstFailsRequest" /\ \E k \in DOMAIN o.ex :
             LET x == o.ex[k] IN x.res = "rst" /\ ~(RqDoneBy(o, x.q, x.resAt))
      \/ c = "C03_ErrFailsRequest" /\ \E k \in DOMAIN o.ex :
